@@ -778,6 +778,10 @@ def minmax_iter(engine, ctx, it, is_min: bool):
         if ctx.decide(z3.Not(lift_bool(engine.truth(ctx, it)))):
             raise engine.lib.raise_ext("ValueError")
         return st.smin(it.term) if is_min else st.smax(it.term)
+    if isinstance(it, SymSeq) and it.kind is V.Int:
+        if ctx.decide(it.length <= 0):
+            raise engine.lib.raise_ext("ValueError")
+        return st.minseq(it.arr, it.length) if is_min else st.maxseq(it.arr, it.length)
     items = mapped_items_concrete(engine, ctx, it)
     if items is not None:
         return engine.lib.fold_minmax(ctx, items, is_min)
